@@ -216,8 +216,8 @@ if __name__ == "__main__":
     import sys
     harness.main(
         "C14", "props.C14", worker,
-        rule=("the finite space {bool, byte, uint1..64, int1..64} x start offset 0..7 x position {scalar, array element (capacities 1,2,3,5; "
-              "8/16/32/64-bit elements take the C batch path), alias, alias of array, 2-D array of alias-of-array rows}: one probe message per (type, pad width) whose "
+        rule=("the finite space {bool, byte, uint1..64, int1..64} x start offset 0..7 x position {scalar, array element (capacities 1,2,3,5,9; "
+              "8/16/32/64-bit elements take the C batch path), alias, alias of array, array of alias elements, 2-D array of alias-of-array rows}: one probe message per (type, pad width) whose "
               "fields put every position at every offset; per probed leaf each basis value alone (0, all-ones, single bits, min, max, -1, "
               "0x55.., 0xAA..) and all leaves together; run through the Python runtime (trace monitor), the C runtime in standard mode "
               "(gcc/clang -O0/-O2/-O3, ASan+UBSan, guard pages, big-endian builds on big-endian-laid storage) and -O code (little/big/both); "
